@@ -942,7 +942,7 @@ class IntronPathProcessor:
         leftmost_start = all_possible_starts[0]
         if trusted and start <= leftmost_start[1] and leftmost_start[0] == VERTEX_read_start:
             return leftmost_start
-        elif not trusted and start >= leftmost_start[1] and \
+        elif not trusted and start >= leftmost_start[1] - self.params.apa_delta and \
                 (len(all_possible_starts) <= 1 or start < all_possible_starts[1][1]):
             return leftmost_start
         return None
